@@ -16,6 +16,9 @@ ENGINES = [
      "kind_free_text": "bit-level model of NumberTracker; enumeration of all application orders; judge of recorded tracker answers"},
     {"name": "value-semantics", "path": "spec/ValSem.tla spec/MC_Val.tla spec/Judge_Val.tla", "serves_properties": ["C16", "C17"],
      "kind_free_text": "TLA+ semantics of the mixed value type; TLC lemma for its overflow-free integer formulas; enumeration of the operator x catalogue grid; judge"},
+    {"name": "session-spec", "path": "spec/Exmex.tla spec/MC_Exmex.tla spec/Judge_Calc.tla spec/Field.tla spec/Jets.tla spec/PartialImpl.tla spec/MC_Diff.tla spec/DiffTables.tla",
+     "serves_properties": ["C05", "C09", "C10", "C11", "C12"],
+     "kind_free_text": "session machine (pool of immutable expressions, one action per API call), field and power-series semantics, transcription of the differentiation rules; history enumeration; trace validation of recorded sessions"},
     {"name": "recorder", "path": "harness/", "serves_properties": ["C01", "C02", "C03"],
      "kind_free_text": "Rust crate driving the real exmex with a free term algebra as data type and run-time operator tables; records observations as ndjson"},
     {"name": "judge", "path": "spec/Judge_Expr.tla", "serves_properties": ["C01", "C02", "C03"],
@@ -72,5 +75,21 @@ CLAIMS = {
                 text="MC_Tok: no failure state (index, unwrap, assert) reachable in preconditions -> flat builder -> compile -> deepen -> flatten nor in the deep builder for any token sequence; accepted iff not in a must-reject class; MC_Lex: tokenizer model total on every string. "
                      "Every enumerated text goes through flat, deep, uncompiled, eval_str, parse_val and both statement parsers (+ evaluation, conversions, unparse, listings, partial on accepted ones); outcome must be ok or err. Soup of 1000 tokens and nesting to 100 run in their own process.",
                 note="Trusted: TLC; the panic capture of the recorder (catch_unwind; an abort kills the pipeline and is reported). Hangs are not decided beyond 'everything returned'; deeper recursion limits of the deep form are out of scope as the property says."),
+    "C05": dict(category=MC, technique="TLA+ transcription of the differentiation rules checked by TLC against a truncated-power-series model of analysis (IsPartial) + trace validation of recorded differentiation sessions (programs typed by base point) against the session spec",
+                text="MC_Diff: PartialImpl.D (rule table, inner x outer chain structure) yields the true derivative as a power series for every small tree over the functions' base points, first and second order, and fails exactly on operators without rule. "
+                     "The real partial() of flat, uncompiled and deep expressions (parsed, converted, already differentiated) over + - * / ^ and 18 elementary functions is recorded with an exact symbolic data type and must equal D as a series along a direction in which every variable moves.",
+                note="Trusted: TLC, Field.tla/Jets.tla (a field with free function symbols / truncated series; a wrong value escapes with probability ~1e-4 per point, 3 points), the recorder's exact-rational symbolic type Sym.  Floats: transferred by parametricity of partial.rs in T, not by a float oracle; rounding is not decided."),
+    "C09": dict(category=MC, technique="session specification (Exmex.tla) + TLC-enumerated and random index sequences replayed and trace-validated; hook events for 'before any work'",
+                text="Index >= number of variables is an error for partial, partial_nth and partial_iter with no partial_deepex hook event before it; the variable list is kept; partial_nth and partial_iter equal the iterated single derivative (series comparison), order zero is the identity, mixed partials agree.",
+                note="Trusted: TLC, Field.tla/Jets.tla (a field with free function symbols / truncated series; a wrong value escapes with probability ~1e-4 per point, 3 points), the recorder's exact-rational symbolic type Sym.  An order-zero call with an invalid index is left unconstrained."),
+    "C10": dict(category=MC, technique="session specification with append-only pool checked by TLC (totality, sorted unions) + replay of all short histories and random long ones, values compared in a field with free function symbols",
+                text="operate_unary/operate_binary by name, the 24 named helpers, + - * / pow neg on flat (via deep and back) and deep expressions: result over the sorted union of the variables, value = operator applied to the operands' values; neutral-element shortcuts are accepted exactly when they are valid field identities; unknown names are errors.",
+                note="Trusted: TLC, Field.tla/Jets.tla (a field with free function symbols / truncated series; a wrong value escapes with probability ~1e-4 per point, 3 points), the recorder's exact-rational symbolic type Sym. "),
+    "C11": dict(category=MC, technique="session specification (simultaneous Subst, sorted union) + replay of all short substitution histories and random ones, field-semantic comparison",
+                text="subs with empty, renaming, swapping, constant and self-referential maps, repeated, on flat and deep: value = original with each replaced variable bound to its replacement (not re-substituted); variable list between the occurring and the specified union.",
+                note="Trusted: TLC, Field.tla/Jets.tla (a field with free function symbols / truncated series; a wrong value escapes with probability ~1e-4 per point, 3 points), the recorder's exact-rational symbolic type Sym.  Known finding F8 (unused listed variables are dropped) is reported, not counted."),
+    "C12": dict(category=MC, technique="session specification (Reparse o Unparse = identity on (vars, value)) + trace validation of unparse->parse and serde round trips after arbitrary calculus histories, incl. tables with colliding alphabetic names",
+                text="A parsed flat expression prints its text verbatim; deep and derived expressions (conversion, operator application, substitution, differentiation) print to a text that parses back to the same variables and value; serde round trip likewise; adversarial operator-name tables (binary `at` + unary `an` vs unary `atan`).",
+                note="Trusted: TLC, Field.tla/Jets.tla (a field with free function symbols / truncated series; a wrong value escapes with probability ~1e-4 per point, 3 points), the recorder's exact-rational symbolic type Sym.  Literals print through Debug of the symbolic type (`@k` for non-integers), which satisfies the property's precondition. Known finding F8 is reported, not counted."),
 }
 NOT_YET = {}
